@@ -83,6 +83,9 @@ func near(got, want, scale float64) bool {
 // the series under test; what a series reports must not depend on who shares its name or its batch.
 var siblingMode int
 
+// siblingHist: the sibling is a histogram timer with a bucket list of its own (same name, other gsd_histogram tag)
+var siblingHist string
+
 func run(t vt.TB, pcts []float64, mask gostatsd.TimerSubtypes, limit uint32, tags gostatsd.Tags, batches [][]point, interval time.Duration) gostatsd.Timer {
 	agg := statsd.NewMetricAggregator(pcts, 0, 0, 0, 0, mask, limit)
 	if countPoints(batches) == 0 {
@@ -96,6 +99,9 @@ func run(t vt.TB, pcts []float64, mask gostatsd.TimerSubtypes, limit uint32, tag
 	for _, b := range batches {
 		mm := gostatsd.NewMetricMap(false)
 		sib := &gostatsd.Metric{Name: "t", Type: gostatsd.TIMER, Value: 7, Rate: 0.5, Tags: gostatsd.Tags{"sibling:1"}, Timestamp: 1}
+		if siblingHist != "" {
+			sib.Tags = gostatsd.Tags{"sibling:1", siblingHist}
+		}
 		if siblingMode == 1 {
 			mm.Receive(sib)
 		}
@@ -120,8 +126,10 @@ func run(t vt.TB, pcts []float64, mask gostatsd.TimerSubtypes, limit uint32, tag
 	found := 0
 	agg.Process(func(mm *gostatsd.MetricMap) {
 		mm.Timers.Each(func(n, k string, tm gostatsd.Timer) {
-			if len(tm.Tags) == 1 && tm.Tags[0] == "sibling:1" {
-				return
+			for _, tg := range tm.Tags {
+				if tg == "sibling:1" {
+					return
+				}
 			}
 			out = tm
 			found++
@@ -492,6 +500,10 @@ func TestHistograms(t *testing.T) {
 		}
 		otherTags := rapid.SampledFrom([][]string{nil, {"a:b"}, {"z"}}).Draw(t, "othertags")
 		tags := gostatsd.Tags(append(append([]string{}, otherTags...), tag))
+		// another histogram timer of the same name with other bounds, received before or after: each series has its own buckets
+		siblingMode = rapid.IntRange(0, 2).Draw(t, "sibling-series")
+		siblingHist = rapid.SampledFrom([]string{"", "gsd_histogram:0.001_7777", "gsd_histogram:3_4_6_7_8_9_11_12_13_14"}).Draw(t, "sibling-buckets")
+		defer func() { siblingMode, siblingHist = 0, "" }()
 		pcts := []float64{90, -50}
 		tm := run(t, pcts, gostatsd.TimerSubtypes{}, limit, tags, split(t, pts), time.Second)
 
